@@ -53,7 +53,9 @@ int main(int argc, char** argv) {
       Paths64 all = subj; all.insert(all.end(), in.clip.begin(), in.clip.end());
       auto probes = gen_probes(g, subj, in.clip, 30);
       // the open paths' edges are part of the reference for the band: a join near an open/closed crossing may move a vertex
-      emitS("closed-unchanged", "SAMEREGION " + S(sol) + " " + S(sol2) + " " + S(all) + " " + probes_str(probes));
+      // (the premise of C05 puts the open polylines in general position together with the closed paths: a clip vertex 2 units
+      //  from an open segment is outside the quantifier - the whole record is therefore guarded by IFGP over all three sets)
+      emitS("closed-unchanged", "IFGP " + S(subj) + " " + S(in.clip) + " " + S(opn) + " SAMEREGION " + S(sol) + " " + S(sol2) + " " + S(all) + " " + probes_str(probes));
       if (canon_closed(sol) == canon_closed(sol2)) stat("closed.identical"); else stat("closed.differs-as-paths");
     }
     stat("input.magnitude." + std::to_string(in.R));
